@@ -122,7 +122,7 @@ func TestC08(t *testing.T) {
 		runOne(&sr.Scenario, sr.picker())
 	} else {
 		junk := []envOp{{Kind: "send", Arg: `{bad`}, {Kind: "send", Arg: `[]`}, {Kind: "send", Arg: `{"jsonrpc":"2.0","method":"m","params":["n500","ok"],"zz":1}`},
-			{Kind: "send", Arg: `5`}, {Kind: "notify", Arg: "p1"}, {Kind: "callback", Arg: "k1"}, {Kind: "send", Arg: reqNote("n501", "ok")}, {Kind: "send", Arg: reqNote("n502", "err")}}
+			{Kind: "send", Arg: `5`}, {Kind: "notify", Arg: "p1"}, {Kind: "callback", Arg: "k1"}, {Kind: "callbackbg", Arg: "k8"}, {Kind: "send", Arg: reqNote("n503", "cb:k9")}, {Kind: "send", Arg: reqNote("n501", "ok")}, {Kind: "send", Arg: reqNote("n502", "err")}}
 		for i := 0; i < pick(250, 2500); i++ {
 			sc := &srvScenario{Concurrency: 1 + rng.Intn(3), AllowPush: rng.Intn(2) == 0, Restart: true, NoUnblock: rng.Intn(3) == 0}
 			sc.Ops = genTrafficOpts(rng, 2+rng.Intn(4), 0, 0, 3, true)
@@ -166,6 +166,10 @@ func TestC08(t *testing.T) {
 			// notifications written with an explicit null id, queued behind an earlier notification when the server stops
 			{Concurrency: 1, Restart: true, Ops: []envOp{{Kind: "send", Arg: reqNote("n1", "ok")}, {Kind: "send", Arg: `{"jsonrpc":"2.0","id":null,"method":"m","params":["n2","ok"]}`},
 				{Kind: "send", Arg: reqBatch(`{"jsonrpc":"2.0","id":null,"method":"m","params":["n3","ok"]}`, reqCall(4, "c4", "ok"), reqNote("n5", "ok"))}, {Kind: "stop"}}},
+			// callbacks whose context can never end, unanswered when the server goes down
+			{Concurrency: 2, AllowPush: true, Restart: true, Ops: []envOp{{Kind: "callbackbg", Arg: "k1"}, {Kind: "stop"}}},
+			{Concurrency: 2, AllowPush: true, Ops: []envOp{{Kind: "send", Arg: reqNote("n1", "cb:k1")}, {Kind: "callbackbg", Arg: "k2"}, {Kind: "close"}}},
+			{Concurrency: 2, AllowPush: true, RecvFailAt: 2, RecvFailKind: "other", Ops: []envOp{{Kind: "send", Arg: reqNote("n1", "cb:k1")}, {Kind: "callbackbg", Arg: "k2"}}},
 			{Concurrency: 2, AllowPush: true, SendFailAt: 1, Ops: []envOp{{Kind: "callback", Arg: "k1"}, {Kind: "send", Arg: reqCall(1, "c1", "ok")}, {Kind: "stop"}}},
 			{Concurrency: 2, AllowPush: true, SendFailAt: 2, Ops: []envOp{{Kind: "notify", Arg: "p1"}, {Kind: "callback", Arg: "k1"}, {Kind: "callback", Arg: "k2"}, {Kind: "close"}}},
 		}
